@@ -87,6 +87,30 @@ EXTRA2={
 }
 for k,v in EXTRA2.items():
     t,n,tech=T[k]; T[k]=(t+v,n,tech)
+EXTRA3={
+"C01":" Plus widths 2^k-1, 2^k, 2^k+1 up to 1025 (thorough 8193) with everything that can be done at the right edge three operations deep, and text runs of every length from every placement on 20x6.",
+"C02":" Plus every height 1..200 (thorough 300) to every height as the first call / after feed() touched every row / after an ordinary call, and resizes at every scrollback fill level around the limit (reached in four ways) to ~30 targets.",
+"C03":" The character-level strings also read every accessor after every character (looking does not touch).",
+"C04":" Plus a 17-op print core alphabet (wrap, insert, repeat, wide / zero-width characters, typed blanks, DECSTR, inner region) to depth 6 (thorough 8), and every designator final 0x30..0x7E into G0 / G1 with every character printed and repeated under it.",
+"C05":" Plus tab movement over edited stop lists on 80x24 (a default stop cleared x one or two stops set x either edge, then HT / CHT n / CBT n for every n), zero-padded parameter spellings, C0 controls inside malformed sequences and commands after ignored sequences behind the 8-bit CSI.",
+"C06":" Plus a 17-op scroll core alphabet to depth 7 (thorough 9) and the scrolling alphabet through feed() and feed_str mixed on the alternate screen (lines().len() == rows after every op).",
+"C07":" Plus the same 80x24 / 300x3 sweep from a sparse screen (short texts, then blanks erased under other pens), zero-width characters in the seeds.",
+"C08":" Plus non-SGR sequences ending in m (markers, intermediates) and colon forms whose selector is 2 / 5 only modulo 256 in the pen fold.",
+"C09":" Plus every scalar next to five kinds of non-ASCII neighbours, every ordered pair over a grid of scalars (171 k, thorough 1.6 M pairs) with the characters known to interact, one line of every length around the powers of two up to 2^21 (thorough 2^23), and text() read after every call on a growing terminal.",
+"C10":" Plus histories of up to 131 073 (thorough 524 289) lines and densely filled screens up to 300x200 (thorough 1000x70) narrowed to 1 and 2 columns from five cursor places.",
+"C11":" Plus a 10-op pen / origin mode / save / region core alphabet to depth 6 (thorough 8).",
+"C12":" At every final node whose internal state differs from the single call's, four continuations (the other screen entered and the terminal grown, ...) are compared as well; the character-level strings also read every accessor after every character.",
+"C13":" Plus tall screens (row counts around every power of two up to 10 000, thorough 70 000) x 10 limits x 4 ways of scrolling a line or two per call, the bound after every call.",
+"C14":" Plus a 14-op core alphabet (scrolls, regions, screen switches through feed_str and feed(), a scroll-switch-scroll-switch in one call) to depth 6 (thorough 8), and whitespace-only wrapped lines.",
+"C15":" Plus, from the filled start screen, every sequence of <= 4 (thorough 5) units 'go to row r, then ED 0 / ED 1 / wrapping text / a character / EL' as ONE call.",
+"C16":" Plus a 9-op excursion core alphabet to depth 8 (thorough 10); a blank alternate screen on entry also has no soft-wrap marks.",
+"C17":" Plus a 19-op save / restore core alphabet to depth 7 (thorough 9), near-miss spellings of saves / restores as must-change-nothing ops, and every implemented mode as the 5th..32nd entry of a mode list.",
+"C18":" The width chains also run with a hard reset in between.",
+"C19":" Plus w1 -> w2, ESC c, -> w3 against a fresh w2 resized to w3 (21 k, thorough 343 k chains) and composite continuations after ESC c.",
+"C20":" Plus every scalar >= U+00A0 where a sequence expects its final byte and inside string payloads continued by a second, long call.",
+}
+for k,v in EXTRA3.items():
+    t,n,tech=T[k]; T[k]=(t+v,n,tech)
 claimed=sorted(T)
 checks=[]
 for p in props:
